@@ -53,7 +53,9 @@ from pybrops.breed.prot.sel.prob.trans import trans_sum
 
 ASSUMPTIONS = [
     "constraint functions of the generated problems return violation magnitudes >= 0 (0 = satisfied), integer valued, "
-    "as pybrops' own selection problems do; violation weights are positive",
+    "as pybrops' own selection problems do; violation weights are positive; for the pymoo-backed optimisers one third of the "
+    "inequality constraints return a signed slack instead (negative = satisfied with room to spare; pymoo's G <= 0 rule), so "
+    "that constraint values differ between the members of a feasible front",
     "pymoo 0.6.2 seeds every run from OS entropy (numpy.random.default_rng(None)) and the pybrops GA classes ignore "
     "their rng argument (reported under C08): GA runs are NOT replay-deterministic through the public API.  The "
     "harness pins both sources while the optimiser runs (numpy.random.seed(case seed) for the pybrops operators, "
@@ -146,7 +148,8 @@ class HSubsetTable(_NoLatent, SubsetProblem):
         obj = self.obj_wt * lat
         iq, eq = self.spec["ineq"], self.spec["eq"]
         if iq:
-            g = self.ineqcv_wt * numpy.array([max(0.0, self._flags[idx].sum() - iq["cap"]) + iq["base"]], dtype=float)
+            slack = float(self._flags[idx].sum() - iq["cap"])
+            g = self.ineqcv_wt * numpy.array([(slack if iq.get("signed") else max(0.0, slack)) + iq["base"]], dtype=float)
         else:
             g = numpy.zeros(0)
         if eq:
@@ -164,9 +167,10 @@ class HSubsetTable(_NoLatent, SubsetProblem):
         return numpy.abs(self.obj_wt) * s
 
 
-def _ineq_count_trans(decnvec, latentvec, flagmap=None, cap=0, base=0, **kwargs):
+def _ineq_count_trans(decnvec, latentvec, flagmap=None, cap=0, base=0, signed=False, **kwargs):
     cnt = sum(flagmap.get(int(e), 0) for e in decnvec)
-    return numpy.array([max(0.0, float(cnt) - cap) + base], dtype=float)
+    slack = float(cnt) - cap
+    return numpy.array([(slack if signed else max(0.0, slack)) + base], dtype=float)
 
 
 def _eq_mod_trans(decnvec, latentvec, tmap=None, m=2, **kwargs):
@@ -186,7 +190,7 @@ def build_subset_problem(spec):
         obj_trans=trans_sum if spec["trans"] == "sum" else None,
         nineqcv=1 if iq else 0, ineqcv_wt=numpy.array([iq["wt"]], dtype=float) if iq else None,
         ineqcv_trans=_ineq_count_trans if iq else None,
-        ineqcv_trans_kwargs={"flagmap": dict(zip(labels, iq["flags"])), "cap": iq["cap"], "base": iq["base"]} if iq else None,
+        ineqcv_trans_kwargs={"flagmap": dict(zip(labels, iq["flags"])), "cap": iq["cap"], "base": iq["base"], "signed": bool(iq.get("signed"))} if iq else None,
         neqcv=1 if eq else 0, eqcv_wt=numpy.array([eq["wt"]], dtype=float) if eq else None,
         eqcv_trans=_eq_mod_trans if eq else None,
         eqcv_trans_kwargs={"tmap": dict(zip(labels, eq["t"])), "m": eq["m"]} if eq else None,
@@ -230,7 +234,8 @@ class _VecMixin(_NoLatent):
         obj = self.obj_wt * lat
         iq, eq = self.spec["ineq"], self.spec["eq"]
         if iq:
-            g = self.ineqcv_wt * numpy.array([max(0.0, xf.dot(self._c) - iq["cap"]) + iq["base"]], dtype=float)
+            slack = float(xf.dot(self._c) - iq["cap"])
+            g = self.ineqcv_wt * numpy.array([(slack if iq.get("signed") else max(0.0, slack)) + iq["base"]], dtype=float)
         else:
             g = numpy.zeros(0)
         if eq:
@@ -276,8 +281,9 @@ class HBinary(_VecMixin, BinaryProblem):
         BinaryProblem.__init__(self, **_vec_kwargs(spec, "int64"))
 
 
-def _ineq_lin_trans(decnvec, latentvec, c=None, cap=0, base=0, **kwargs):
-    return numpy.array([max(0.0, float(numpy.asarray(decnvec).astype(float).dot(c)) - cap) + base], dtype=float)
+def _ineq_lin_trans(decnvec, latentvec, c=None, cap=0, base=0, signed=False, **kwargs):
+    slack = float(numpy.asarray(decnvec).astype(float).dot(c)) - cap
+    return numpy.array([(slack if signed else max(0.0, slack)) + base], dtype=float)
 
 
 VEC = {
@@ -295,7 +301,7 @@ def build_vector_problem(family, spec):
     iq = spec["ineq"]
     kw.update(ebv=numpy.array(spec["A"], dtype=float).reshape(spec["n"], spec["nobj"]),
               ineqcv_trans=_ineq_lin_trans if iq else None,
-              ineqcv_trans_kwargs={"c": numpy.array(iq["c"], dtype=float), "cap": iq["cap"], "base": iq["base"]} if iq else None)
+              ineqcv_trans_kwargs={"c": numpy.array(iq["c"], dtype=float), "cap": iq["cap"], "base": iq["base"], "signed": bool(iq.get("signed"))} if iq else None)
     return ecls(**kw)
 
 
@@ -475,7 +481,7 @@ def _numbers(draw, count):
 
 
 @st.composite
-def subset_spec(draw, nobj, nmax=12, kmax=6, infeasible_ok=False, matrix_eval=False):
+def subset_spec(draw, nobj, nmax=12, kmax=6, infeasible_ok=False, matrix_eval=False, signed_ok=False):
     kind = draw(st.sampled_from(["table", "table", "table", "ebv"]))
     shape = draw(st.sampled_from(["typical"] * 7 + ["any", "any", "full"]))
     if shape == "typical":
@@ -513,7 +519,9 @@ def subset_spec(draw, nobj, nmax=12, kmax=6, infeasible_ok=False, matrix_eval=Fa
     if cons in ("ineq", "both"):
         base = 1 if (infeasible_ok and draw(st.sampled_from([False] * 3 + [True] + [False] * 4))) else 0
         spec["ineq"] = {"flags": draw(st.lists(st.integers(0, 1), min_size=n, max_size=n)),
-                        "cap": draw(st.integers(0, k)), "base": base, "wt": draw(st.sampled_from(CVWT))}
+                        "cap": draw(st.integers(0, k)), "base": base, "wt": draw(st.sampled_from(CVWT)),
+                        # signed slack (negative = satisfied with room to spare) only where pymoo's G <= 0 rule decides feasibility
+                        "signed": bool(signed_ok and draw(st.sampled_from([False, True, False])))}
     if cons in ("eq", "both"):
         spec["eq"] = {"t": draw(st.lists(st.integers(0, 3), min_size=n, max_size=n)), "m": draw(st.sampled_from([2, 2, 3])),
                       "wt": draw(st.sampled_from(CVWT))}
@@ -535,7 +543,7 @@ def ga_subset_case(draw):
     algo = draw(st.sampled_from(["SubsetGA", "SubsetGA", "NSGA2", "NSGA2", "NSGA3", "MemeticSteepest", "MemeticStochastic",
                                  "MemeticMutatorA", "MemeticMutatorB"]))
     nobj = 1 if algo == "SubsetGA" else draw(st.sampled_from([2, 2, 3]))
-    spec = draw(subset_spec(nobj, nmax=10, kmax=5, infeasible_ok=True, matrix_eval=True))
+    spec = draw(subset_spec(nobj, nmax=10, kmax=5, infeasible_ok=True, matrix_eval=True, signed_ok=True))
     case = {"algo": algo, "spec": spec, "ngen": draw(st.integers(1, 6)), "pop": draw(st.integers(4, 16)),
             "seed": draw(st.integers(0, 2 ** 31 - 1))}
     if algo == "NSGA3":
@@ -583,7 +591,8 @@ def vector_spec(draw, family, nobj):
         hi_load = sum(ci * b for ci, b in zip(c, hi))
         frac = draw(st.sampled_from([0.25, 0.5, 0.75, 1.0]))
         base = 1 if draw(st.sampled_from([False] * 4 + [True] + [False] * 5)) else 0
-        spec["ineq"] = {"c": c, "cap": float(lo_load + frac * (hi_load - lo_load)), "base": base, "wt": draw(st.sampled_from(CVWT))}
+        spec["ineq"] = {"c": c, "cap": float(lo_load + frac * (hi_load - lo_load)), "base": base, "wt": draw(st.sampled_from(CVWT)),
+                        "signed": draw(st.sampled_from([False, True, False]))}
     if cons in ("eq", "both"):
         spec["eq"] = {"t": draw(st.lists(st.integers(0, 3), min_size=n, max_size=n)), "m": draw(st.sampled_from([2, 2, 3])),
                       "wt": draw(st.sampled_from(CVWT))}
